@@ -34,7 +34,15 @@ func ZZ_C08_cashaddr_short() {
 // ZZ_C08_address_raw: DecodeAddress on arbitrary short byte strings, every net.
 func ZZ_C08_address_raw() {
 	net := zzNet()
-	n := vCase("len", 0, vParam("maxlen", 5))
+	if vParam("allnets", 0) == 0 && net != &chaincfg.MainNetParams && net != &chaincfg.SimNetParams {
+		return
+	}
+	base := len(net.CashAddressPrefix)
+	if len(net.SlpAddressPrefix) > base {
+		base = len(net.SlpAddressPrefix)
+	}
+	// shorter strings are refused by the length pre-check; the interesting ones are just above it
+	n := base + vCase("extra", vParam("minextra", 2), vParam("maxextra", 3))
 	s := vBytes("s", n)
 	for _, c := range s {
 		vAssume(c < 0x80)
